@@ -22,6 +22,7 @@ CONSTANTS
     MaxTicks,  \* bound on Tick steps (7 time units each)
     FixF2,     \* TRUE: the code after "fix: routine: a new instance waits for every earlier instance"
     FixF14,    \* TRUE: the state container takes the routine container's lock and uses ITS broadcast
+    RootCancel,\* TRUE: the client may cancel the root contexts it handed to SetContext (environment action)
     Eager
 
 Procs == 1..Len(Prog)
@@ -43,9 +44,10 @@ VARIABLES
     wcanc,    \* WaitExited caller's own context cancelled
     chmap,    \* handle -> goroutine id whose exited channel was returned
     nch,
-    pend      \* per client: data of the API call in progress (result to log)
+    pend,     \* per client: data of the API call in progress (result to log)
+    ctxdead   \* tags of the root contexts the client has cancelled
 
-xvars == <<kctx, cur, kprev, rec, g, ninst, timers, nfired, tnow, nticks, sstate, pc, ip, wch, wcanc, chmap, nch, pend>>
+xvars == <<kctx, cur, kprev, rec, g, ninst, timers, nfired, tnow, nticks, sstate, pc, ip, wch, wcanc, chmap, nch, pend, ctxdead>>
 vars == <<xvars, pvars>>
 
 Recs == DOMAIN rec
@@ -64,6 +66,7 @@ Init ==
     /\ wch = [p \in Procs |-> "none"] /\ wcanc = [p \in Procs |-> FALSE]
     /\ chmap = <<>> /\ nch = 0
     /\ pend = [p \in Procs |-> <<>>]
+    /\ ctxdead = {}
 
 -----------------------------------------------------------------------------
 (* Pure helpers on a bundle B = [rec, g, timers] *)
@@ -94,10 +97,12 @@ Start(B, r, tag, w, force) ==
           n == Cardinality(DOMAIN B1.g) + 1
       IN [B1 EXCEPT !.rec[r] = [@ EXCEPT !.err = "none", !.success = FALSE, !.exited = FALSE,
                                           !.ech = n, !.rctx = n, !.cgo = n],
-                    !.g = (n :> [rec |-> r, waitOn |-> w, pc |-> "spawned", canc |-> FALSE, tag |-> tag,
+                    !.g = (n :> [rec |-> r, waitOn |-> w, pc |-> "spawned", canc |-> (tag \in ctxdead), tag |-> tag,
                                  closed |-> FALSE, einst |-> 0, out |-> ""]) @@ @]
 
-\* "if k.ctx != nil && k.ctx.Err() != nil { k.ctx = nil }": the driver never cancels root contexts
+\* "if k.ctx != nil && k.ctx.Err() != nil { k.ctx = nil }" at the top of WaitExited's section,
+\* setRoutineLocked and restartRoutineLocked (SetContext and the timer callback do not do it)
+KC == IF kctx # 0 /\ kctx \in ctxdead THEN 0 ELSE kctx
 Closed(B, x) == x = 0 \/ B.g[x].closed
 
 SetBundle(B) == rec' = B.rec /\ g' = B.g /\ timers' = B.timers
@@ -125,20 +130,20 @@ Call(p) ==
        /\ PCall([id |-> CallId(p, ip[p]), op |-> o.op, actor |-> p, rin |-> o.rin, r |-> o.r, c |-> o.c, f |-> o.f, s |-> o.s])
        /\ pc' = [pc EXCEPT ![p] = IF o.op = "waitexited" THEN "wcs" ELSE "cs"]
        /\ wcanc' = [wcanc EXCEPT ![p] = FALSE]
-    /\ UNCHANGED <<kctx, cur, kprev, rec, g, ninst, timers, nfired, tnow, nticks, sstate, ip, wch, chmap, nch, pend>>
+    /\ UNCHANGED <<kctx, cur, kprev, rec, g, ninst, timers, nfired, tnow, nticks, sstate, ip, wch, chmap, nch, pend, ctxdead>>
 
 \* setRoutineLocked(key) on bundle B; returns [B, cur, kprev, ch (goroutine id of returned channel), reset]
 SetRoutineLocked(B, key) ==
     LET prev == cur
         prevCh == IF prev # 0 THEN B.rec[prev].ech ELSE 0
-        wasReset == prev # 0 /\ kctx # 0 /\ ~B.rec[prev].exited
+        wasReset == prev # 0 /\ KC # 0 /\ ~B.rec[prev].exited
         B1 == IF prev # 0 THEN [CancelG(B, B.rec[prev].cgo) EXCEPT !.rec[prev].cgo = 0] ELSE B
         waitCh == IF FixF2 THEN (IF prev = 0 THEN kprev ELSE prevCh) ELSE prevCh
         nr == Cardinality(DOMAIN B1.rec) + 1
     IN
     IF key # 0
     THEN LET B2 == [B1 EXCEPT !.rec = (nr :> [NoRec EXCEPT !.key = key, !.ech = IF FixF2 THEN waitCh ELSE 0]) @@ @]
-             B3 == IF kctx # 0 THEN Start(B2, nr, kctx, waitCh, FALSE) ELSE B2
+             B3 == IF KC # 0 THEN Start(B2, nr, KC, waitCh, FALSE) ELSE B2
          IN [B |-> B3, cur |-> nr, kprev |-> 0, ch |-> prevCh, reset |-> wasReset, bc |-> TRUE]
     ELSE [B |-> B1, cur |-> 0, kprev |-> IF FixF2 THEN waitCh ELSE 0, ch |-> prevCh, reset |-> wasReset, bc |-> wasReset]
 
@@ -153,7 +158,7 @@ CS(p) ==
               LET same == kctx = o.c IN
               IF same /\ ~o.r
               THEN /\ pend' = [pend EXCEPT ![p] = [changed |-> FALSE]]
-                   /\ UNCHANGED <<kctx, cur, kprev, rec, g, timers, wch, sstate>>
+                   /\ UNCHANGED <<kctx, cur, kprev, rec, g, timers, wch, sstate, ctxdead>>
               ELSE /\ kctx' = o.c
                    /\ IF cur = 0 \/ (same /\ rec[cur].err = "none")
                       THEN /\ pend' = [pend EXCEPT ![p] = [changed |-> FALSE]]
@@ -170,42 +175,42 @@ CS(p) ==
               /\ SetBundle(R.B) /\ cur' = R.cur /\ kprev' = R.kprev
               /\ wch' = IF R.bc THEN Bcast(wch) ELSE wch
               /\ pend' = [pend EXCEPT ![p] = [reset |-> R.reset, chg |-> R.ch]]
-              /\ UNCHANGED <<kctx, sstate>>
+              /\ kctx' = KC /\ UNCHANGED sstate
          [] o.op = "setsr" ->       \* SetStateRoutine(same function): re-installs the routine for the stored state
               LET R == SetRoutineLocked(Bundle, sstate) IN
               /\ SetBundle(R.B) /\ cur' = R.cur /\ kprev' = R.kprev
               /\ wch' = IF FixF14 /\ R.bc THEN Bcast(wch) ELSE wch
               /\ pend' = [pend EXCEPT ![p] = [reset |-> R.reset, chg |-> R.ch]]
-              /\ UNCHANGED <<kctx, sstate>>
+              /\ kctx' = KC /\ UNCHANGED sstate
          [] o.op = "setstate" ->
               IF sstate = o.s
               THEN /\ pend' = [pend EXCEPT ![p] = [changed |-> FALSE, reset |-> FALSE, running |-> FALSE, chg |-> 0]]
-                   /\ UNCHANGED <<kctx, cur, kprev, rec, g, timers, wch, sstate>>
+                   /\ UNCHANGED <<kctx, cur, kprev, rec, g, timers, wch, sstate, ctxdead>>
               ELSE LET R == SetRoutineLocked(Bundle, o.s) IN
                    /\ sstate' = o.s
                    /\ SetBundle(R.B) /\ cur' = R.cur /\ kprev' = R.kprev
                    \* (before the F14 fix the state container passed its own broadcast func: rc waiters were not woken)
                    /\ wch' = IF FixF14 /\ R.bc THEN Bcast(wch) ELSE wch
                    /\ pend' = [pend EXCEPT ![p] = [changed |-> TRUE, reset |-> R.reset,
-                                                    running |-> Running(R.B, R.cur, kctx), chg |-> R.ch]]
-                   /\ UNCHANGED kctx
+                                                    running |-> Running(R.B, R.cur, KC), chg |-> R.ch]]
+                   /\ kctx' = KC
          [] o.op = "restart" ->
               IF cur = 0
               THEN /\ pend' = [pend EXCEPT ![p] = [ok |-> FALSE]]
-                   /\ UNCHANGED <<kctx, cur, kprev, rec, g, timers, wch, sstate>>
+                   /\ kctx' = KC /\ UNCHANGED <<cur, kprev, rec, g, timers, wch, sstate, ctxdead>>
               ELSE LET B1 == [CancelG(Bundle, rec[cur].cgo) EXCEPT !.rec[cur].cgo = 0] IN
-                   IF kctx = 0
+                   IF KC = 0
                    THEN /\ SetBundle(B1)
                         /\ pend' = [pend EXCEPT ![p] = [ok |-> FALSE]]
-                        /\ UNCHANGED <<kctx, cur, kprev, wch, sstate>>
+                        /\ kctx' = KC /\ UNCHANGED <<cur, kprev, wch, sstate, ctxdead>>
                    ELSE LET w == B1.rec[cur].ech
-                            B2 == Start([B1 EXCEPT !.rec[cur].ech = 0], cur, kctx, w, TRUE)
+                            B2 == Start([B1 EXCEPT !.rec[cur].ech = 0], cur, KC, w, TRUE)
                         IN /\ SetBundle(B2)
                            /\ wch' = Bcast(wch)
                            /\ pend' = [pend EXCEPT ![p] = [ok |-> TRUE]]
-                           /\ UNCHANGED <<kctx, cur, kprev, sstate>>
+                           /\ kctx' = KC /\ UNCHANGED <<cur, kprev, sstate, ctxdead>>
     /\ pc' = [pc EXCEPT ![p] = "ret"]
-    /\ UNCHANGED <<ninst, nfired, tnow, nticks, ip, wcanc, chmap, nch, pvars>>
+    /\ UNCHANGED <<ninst, nfired, tnow, nticks, ip, wcanc, chmap, nch, ctxdead, pvars>>
 
 \* the call returns: log the result (same controller step as CS: transient)
 Ret(p) ==
@@ -220,7 +225,7 @@ Ret(p) ==
           /\ nch' = IF hasCh THEN nch + 1 ELSE nch
           /\ chmap' = IF hasCh THEN (h :> pend[p].chg) @@ chmap ELSE chmap
     /\ pc' = [pc EXCEPT ![p] = "snap"]
-    /\ UNCHANGED <<kctx, cur, kprev, rec, g, ninst, timers, nfired, tnow, nticks, sstate, ip, wch, wcanc, pend>>
+    /\ UNCHANGED <<kctx, cur, kprev, rec, g, ninst, timers, nfired, tnow, nticks, sstate, ip, wch, wcanc, pend, ctxdead>>
 
 LiveInsts == {g[x].einst : x \in {y \in Gs : g[y].pc = "running" /\ ~g[y].canc}}
 ActiveInsts == {g[x].einst : x \in {y \in Gs : g[y].pc = "running"}}
@@ -230,14 +235,14 @@ Snap(p) ==
     /\ PCtxSnap(p, LiveInsts)
     /\ pc' = [pc EXCEPT ![p] = "idle"]
     /\ Advance(p)
-    /\ UNCHANGED <<kctx, cur, kprev, rec, g, ninst, timers, nfired, tnow, nticks, sstate, wch, wcanc, chmap, nch, pend>>
+    /\ UNCHANGED <<kctx, cur, kprev, rec, g, ninst, timers, nfired, tnow, nticks, sstate, wch, wcanc, chmap, nch, pend, ctxdead>>
 
 \* WaitExited: sample under the lock (routine.go:63-76)
 WCS(p) ==
     /\ Gate
     /\ pc[p] = "wcs"
     /\ LET o == Op(p)
-           has == cur # 0 /\ kctx # 0
+           has == cur # 0 /\ KC # 0
            exited == IF has THEN rec[cur].exited \/ rec[cur].success ELSE o.rin
            res == IF has /\ exited
                   THEN (IF rec[cur].err = "none" THEN "nil" ELSE IF rec[cur].err = "ctx" THEN "canceled" ELSE rec[cur].err)
@@ -249,25 +254,25 @@ WCS(p) ==
           ELSE /\ wch' = [wch EXCEPT ![p] = "cur"]
                /\ pc' = [pc EXCEPT ![p] = "wsel"]
                /\ UNCHANGED <<ip, pvars>>
-    /\ UNCHANGED <<kctx, cur, kprev, rec, g, ninst, timers, nfired, tnow, nticks, sstate, wcanc, chmap, nch, pend>>
+    /\ kctx' = KC /\ UNCHANGED <<cur, kprev, rec, g, ninst, timers, nfired, tnow, nticks, sstate, wcanc, chmap, nch, pend, ctxdead>>
 
 WWake(p) ==
     /\ pc[p] = "wsel" /\ wch[p] = "closed"
     /\ pc' = [pc EXCEPT ![p] = "wcs"]
-    /\ UNCHANGED <<kctx, cur, kprev, rec, g, ninst, timers, nfired, tnow, nticks, sstate, ip, wch, wcanc, chmap, nch, pend, pvars>>
+    /\ UNCHANGED <<kctx, cur, kprev, rec, g, ninst, timers, nfired, tnow, nticks, sstate, ip, wch, wcanc, chmap, nch, pend, pvars, ctxdead>>
 
 WWakeCtx(p) ==
     /\ pc[p] = "wsel" /\ wcanc[p]
     /\ PRet([id |-> CallId(p, ip[p]), res |-> "canceled"])
     /\ pc' = [pc EXCEPT ![p] = "idle"] /\ Advance(p)
-    /\ UNCHANGED <<kctx, cur, kprev, rec, g, ninst, timers, nfired, tnow, nticks, sstate, wch, wcanc, chmap, nch, pend>>
+    /\ UNCHANGED <<kctx, cur, kprev, rec, g, ninst, timers, nfired, tnow, nticks, sstate, wch, wcanc, chmap, nch, pend, ctxdead>>
 
 Cancel(p) ==
     /\ Gate
     /\ pc[p] = "wsel" /\ ~wcanc[p]
     /\ wcanc' = [wcanc EXCEPT ![p] = TRUE]
     /\ PCancel(CallId(p, ip[p]))
-    /\ UNCHANGED <<kctx, cur, kprev, rec, g, ninst, timers, nfired, tnow, nticks, sstate, pc, ip, wch, chmap, nch, pend>>
+    /\ UNCHANGED <<kctx, cur, kprev, rec, g, ninst, timers, nfired, tnow, nticks, sstate, pc, ip, wch, chmap, nch, pend, ctxdead>>
 
 -----------------------------------------------------------------------------
 (* execute() goroutines *)
@@ -299,7 +304,7 @@ ExecStart(x) ==
                /\ Enter(x)
             \/ /\ ~g[x].canc /\ ~Closed(Bundle, w)
                /\ g' = [g EXCEPT ![x].pc = "waiting"] /\ UNCHANGED <<ninst, pvars>>
-    /\ UNCHANGED <<kctx, cur, kprev, rec, timers, nfired, tnow, nticks, sstate, pc, ip, wch, wcanc, chmap, nch, pend>>
+    /\ UNCHANGED <<kctx, cur, kprev, rec, timers, nfired, tnow, nticks, sstate, pc, ip, wch, wcanc, chmap, nch, pend, ctxdead>>
 
 \* blocked in the select: woken by the predecessor's exit or by its own cancellation
 ExecWake(x) ==
@@ -311,14 +316,14 @@ ExecWake(x) ==
              THEN g' = [g EXCEPT ![x].pc = "cwait"] /\ UNCHANGED <<ninst, pvars>>
              ELSE Skip(x)
        \/ /\ Closed(Bundle, w) /\ Enter(x)
-    /\ UNCHANGED <<kctx, cur, kprev, rec, timers, nfired, tnow, nticks, sstate, pc, ip, wch, wcanc, chmap, nch, pend>>
+    /\ UNCHANGED <<kctx, cur, kprev, rec, timers, nfired, tnow, nticks, sstate, pc, ip, wch, wcanc, chmap, nch, pend, ctxdead>>
 
 \* (fixed code) cancelled while waiting: still wait for the predecessor before closing
 ExecCWake(x) ==
     /\ x \in Gs
     /\ g[x].pc = "cwait" /\ Closed(Bundle, g[x].waitOn)
     /\ Skip(x)
-    /\ UNCHANGED <<kctx, cur, kprev, rec, timers, nfired, tnow, nticks, sstate, pc, ip, wch, wcanc, chmap, nch, pend>>
+    /\ UNCHANGED <<kctx, cur, kprev, rec, timers, nfired, tnow, nticks, sstate, pc, ip, wch, wcanc, chmap, nch, pend, ctxdead>>
 
 \* Environment: the instance returns; then cancel(); close(exitedCh); park before the bookkeeping
 InstReturn(x, out) ==
@@ -328,7 +333,7 @@ InstReturn(x, out) ==
     /\ out \in {"ok", "err", "ctxret"} /\ (out = "ctxret" => g[x].canc)
     /\ PLeave(g[x].einst, out)
     /\ g' = [g EXCEPT ![x].pc = "rec", ![x].closed = TRUE, ![x].canc = TRUE, ![x].out = out]
-    /\ UNCHANGED <<kctx, cur, kprev, rec, ninst, timers, nfired, tnow, nticks, sstate, pc, ip, wch, wcanc, chmap, nch, pend>>
+    /\ UNCHANGED <<kctx, cur, kprev, rec, ninst, timers, nfired, tnow, nticks, sstate, pc, ip, wch, wcanc, chmap, nch, pend, ctxdead>>
 
 \* the bookkeeping critical section of execute() (routine.go:311-344)
 ExecRecord(x) ==
@@ -352,7 +357,7 @@ ExecRecord(x) ==
                /\ IF Retry /\ o = "ok" THEN PBo("reset") ELSE UNCHANGED pvars
        ELSE /\ g' = [g EXCEPT ![x].pc = "done"]
             /\ UNCHANGED <<rec, timers, wch, pvars>>
-    /\ UNCHANGED <<kctx, cur, kprev, ninst, nfired, tnow, nticks, sstate, pc, ip, wcanc, chmap, nch, pend>>
+    /\ UNCHANGED <<kctx, cur, kprev, ninst, nfired, tnow, nticks, sstate, pc, ip, wcanc, chmap, nch, pend, ctxdead>>
 
 ErrOf(x) == LET o == IF g[x].out = "" THEN "ctxret" ELSE g[x].out IN
             IF o = "ok" THEN "nil" ELSE IF o = "err" THEN "E" \o ToString(g[x].einst) ELSE "canceled"
@@ -363,7 +368,7 @@ ExitCb(x, k) ==
     /\ g[x].pc = (IF k = 1 THEN "cb1" ELSE "cb2")
     /\ PExitCb(k, g[x].einst, ErrOf(x))
     /\ g' = [g EXCEPT ![x].pc = IF k = 1 THEN "cb2" ELSE "done"]
-    /\ UNCHANGED <<kctx, cur, kprev, rec, ninst, timers, nfired, tnow, nticks, sstate, pc, ip, wch, wcanc, chmap, nch, pend>>
+    /\ UNCHANGED <<kctx, cur, kprev, rec, ninst, timers, nfired, tnow, nticks, sstate, pc, ip, wch, wcanc, chmap, nch, pend, ctxdead>>
 
 -----------------------------------------------------------------------------
 (* Time and the retry timer *)
@@ -384,7 +389,7 @@ TickT ==
                             !.cbn = nfired + Cardinality({u \in 1..t : timers[u].st = "armed" /\ timers[u].due <= tnow + 7})]
                     ELSE timers[t]]
     /\ nfired' = nfired + Cardinality({t \in 1..Len(timers) : timers[t].st = "armed" /\ timers[t].due <= tnow + 7})
-    /\ UNCHANGED <<kctx, cur, kprev, rec, g, ninst, sstate, pc, ip, wch, wcanc, chmap, nch, pend>>
+    /\ UNCHANGED <<kctx, cur, kprev, rec, g, ninst, sstate, pc, ip, wch, wcanc, chmap, nch, pend, ctxdead>>
 
 \* retry timer callback (routine.go:327-334)
 TimerCb(n) ==
@@ -397,7 +402,17 @@ TimerCb(n) ==
           THEN SetBundle(Start(B0, r, kctx, rec[r].ech, TRUE))
           ELSE SetBundle(B0)
     /\ wch' = Bcast(wch)
-    /\ UNCHANGED <<kctx, cur, kprev, ninst, nfired, tnow, nticks, sstate, pc, ip, wcanc, chmap, nch, pend, pvars>>
+    /\ UNCHANGED <<kctx, cur, kprev, ninst, nfired, tnow, nticks, sstate, pc, ip, wcanc, chmap, nch, pend, pvars, ctxdead>>
+
+\* Environment: the client cancels a root context it handed (or will hand) to SetContext.  Every
+\* context derived from it is cancelled with it; the container itself notices lazily (KC).
+CancelRoot(c) ==
+    /\ Gate
+    /\ RootCancel /\ c \notin ctxdead
+    /\ ctxdead' = ctxdead \cup {c}
+    /\ g' = [x \in Gs |-> IF g[x].tag = c THEN [g[x] EXCEPT !.canc = TRUE] ELSE g[x]]
+    /\ PRootCancel(c)
+    /\ UNCHANGED <<kctx, cur, kprev, rec, ninst, timers, nfired, tnow, nticks, sstate, pc, ip, wch, wcanc, chmap, nch, pend>>
 
 -----------------------------------------------------------------------------
 Next ==
@@ -406,6 +421,7 @@ Next ==
     \/ \E x \in 1..MaxG, out \in {"ok", "err", "ctxret"} : InstReturn(x, out)
     \/ TickT
     \/ \E n \in 1..MaxG : TimerCb(n)
+    \/ \E c \in 1..2 : CancelRoot(c)
 
 Spec == Init /\ [][Next]_vars
 
